@@ -137,6 +137,14 @@ func main() {
 		done[n] = true
 		o.Functions = append(o.Functions, eng.verifyFunction(fn, c))
 	}
+	for _, m := range eng.missingContracts {
+		nm := strings.SplitN(m, " ", 2)[0]
+		c := eng.contracts[nm]
+		if c != nil && sel(nm, c.Props) {
+			o.Functions = append(o.Functions, &FuncResult{Name: nm, Props: c.Props, OutOfSubset: true,
+				Errors: []string{"the contracted function does not exist in the current source (contract at " + m + "): the code changed under the contract"}})
+		}
+	}
 	if *sweep {
 		var all []string
 		for n, fn := range eng.allFuncs {
